@@ -7,6 +7,8 @@ require (
 	github.com/energomonitor/bisquitt v0.0.0
 )
 
+require github.com/pion/dtls/v2 v2.1.3 // indirect
+
 replace github.com/energomonitor/bisquitt => /repo
 
 replace golang.org/x/sync => ./xsync
